@@ -508,7 +508,38 @@ def _flatten_args(ip, st, args):
     return list(args)
 
 
+def _extremum_star(ip, st, args, want_max):
+    """max(x1, .., xk, *seq) / min(..) with `seq` of symbolic length and k >= 1 integer arguments: a fresh
+    integer r with its defining facts -- r bounds every explicit argument and every element of seq, and r
+    is one of them (a witness index when it is an element).  CPython: max/min of ints returns the extreme
+    value; with k >= 1 the argument list is never empty, so no ValueError.  Elements must be integers."""
+    from .interp import StarArgs
+
+    fixed = [st.force(x) for x in args[:-1]]
+    seq = args[-1].seq
+    if not fixed or any(x is None or not V.is_num(x) for x in fixed):
+        raise Unsupported("max/min(*seq) of symbolic length needs at least one explicit integer argument")
+    n = Q.seq_len(seq)
+    r = st.fresh_int("max" if want_max else "min")
+    op = ">=" if want_max else "<="
+    for x in fixed:
+        st.assume(V._cmp(op, r, x))
+
+    def elt(j):
+        e = Q.seq_get(seq, j)
+        if not V.is_num(e) or isinstance(e, SBool):
+            raise Unsupported("max/min(*seq) over non-integer elements")
+        return e
+
+    st.assume(V.forall(0, n, lambda j: V._cmp(op, r, elt(j))))
+    jw = st.fresh_int("witness")
+    st.assume(either(*[V._cmp("==", r, x) for x in fixed], both(V._cmp(">=", jw, 0), V._cmp("<", jw, n), V._cmp("==", r, elt(jw)))))
+    return r
+
+
 def b_min(ip, st, *args, **kw):
+    if args and type(args[-1]).__name__ == "StarArgs":
+        return _extremum_star(ip, st, args, False)
     xs = [st.force(x) for x in _flatten_args(ip, st, args)]
     if not xs:
         if "default" in kw:
@@ -524,6 +555,8 @@ def b_min(ip, st, *args, **kw):
 
 
 def b_max(ip, st, *args, **kw):
+    if args and type(args[-1]).__name__ == "StarArgs":
+        return _extremum_star(ip, st, args, True)
     xs = [st.force(x) for x in _flatten_args(ip, st, args)]
     if not xs:
         if "default" in kw:
